@@ -9,127 +9,37 @@
   * The theorems below are the unbounded pieces: (1) the writer's escaping is read back exactly by
     the independent XML reader, for every text; (2) the rows and cells handed to the sheet writer are
     strictly ascending and complete for every reachable sheet; (3) hyperlink relationship ids pair
-    every cell with its own target, for any number of links.
+    every cell with its own target, for any number of links; (4) the cell clause: every `<c>` and every
+    `<si>` the model of the cell writer (`Umya/Model/CellXml.lean`, tied to the code by C01's stream)
+    produces, rendered as the element tree an XML 1.0 reader delivers (`Umya/Model/CellNode.lean`), is
+    decoded by the independent SpreadsheetML decoder (`Spec/Sml.lean::decodeCell`, `rstText`,
+    `sharedStrings`) to the model cell — for all cells, texts, numbers of sheets and table states.
+  The helper lemmas of (1) live in `Umya/Lemmas/XmlChannel.lean`, those of (4) in `Umya/Lemmas/CellDecode.lean`.
 -/
 import Umya.Lemmas.XmlEsc
+import Umya.Lemmas.XmlChannel
 import Umya.Lemmas.Observers
+import Umya.Lemmas.CellDecode
+import Umya.Lemmas.CellBridge
+import Umya.Lemmas.TablesGen
 import Umya.Spec.XmlLex
 namespace Umya.Thm.C02
-open Umya.XmlEsc
+open Umya.XmlEsc Umya.XmlChannel
 
 /-! ### (1) escaping channel: model of the writer's escaping against the independent reader -/
 
-open Umya.Spec.Xml in
-theorem expandGo_escCharOld (lit : Char → List Char) (c : Char) (rest : List Char) (hlit : lit c = [c]) :
-    expandGo lit none (escCharOld c ++ rest) = (expandGo lit none rest).map (c :: ·) := by
-  unfold escCharOld
-  split
-  · rename_i h; subst h; simp [expandGo, resolveRef]
-  · split
-    · rename_i h; subst h; simp [expandGo, resolveRef]
-    · split
-      · rename_i h; subst h; simp [expandGo, resolveRef]
-      · split
-        · rename_i h; subst h; simp [expandGo, resolveRef]
-        · split
-          · rename_i h; subst h; simp [expandGo, resolveRef]
-          · rename_i h1 h2 h3 h4 h5
-            simp [expandGo, h3, hlit]
-
-open Umya.Spec.Xml in
-theorem spec_resolve_refs : resolveRef "#13".toList = some ['\r'] ∧ resolveRef "#10".toList = some ['\n'] ∧
-    resolveRef "#9".toList = some ['\t'] := by decide
-
-open Umya.Spec.Xml in
-theorem expandGo_ref (lit : Char → List Char) (pat : List Char) (v : List Char) (rest : List Char)
-    (hp : resolveRef pat = some v) (hclean : ∀ c ∈ pat, c ≠ ';' ∧ c ≠ '&' ∧ c ≠ '<') :
-    expandGo lit none (('&' :: pat) ++ ';' :: rest) = (expandGo lit none rest).map (v ++ ·) := by
-  have key : ∀ (p acc : List Char), (∀ c ∈ p, c ≠ ';' ∧ c ≠ '&' ∧ c ≠ '<') →
-      expandGo lit (some acc) (p ++ ';' :: rest) = (resolveRef (acc.reverse ++ p)).bind fun v => (expandGo lit none rest).map (v ++ ·) := by
-    intro p
-    induction p with
-    | nil => intro acc _; simp [expandGo]
-    | cons c cs ih =>
-      intro acc h
-      have hc := h c (by simp)
-      simp only [List.cons_append, expandGo, hc.1, hc.2.1, hc.2.2, if_false, false_or]
-      rw [ih (c :: acc) (fun d hd => h d (List.mem_cons_of_mem _ hd))]
-      simp
-  simp only [List.cons_append, expandGo, if_true]
-  rw [key pat [] hclean]
-  simp [hp]
-
-open Umya.Spec.Xml in
-theorem expandGo_escChar (lit : Char → List Char) (c : Char) (rest : List Char) (hlit : c ≠ '\r' → lit c = [c]) :
-    expandGo lit none (escChar c ++ rest) = (expandGo lit none rest).map (c :: ·) := by
-  unfold escChar
-  split
-  · rename_i h; subst h
-    have := expandGo_ref lit "#13".toList ['\r'] rest spec_resolve_refs.1 (by decide)
-    simpa using this
-  · rename_i h; exact expandGo_escCharOld lit c rest (hlit h)
-
-open Umya.Spec.Xml in
-theorem expandGo_attrEscChar (lit : Char → List Char) (c : Char) (rest : List Char)
-    (hlit : c ≠ '\r' → c ≠ '\n' → c ≠ '\t' → lit c = [c]) :
-    expandGo lit none (attrEscChar c ++ rest) = (expandGo lit none rest).map (c :: ·) := by
-  unfold attrEscChar
-  split
-  · rename_i h; subst h
-    have := expandGo_ref lit "#9".toList ['\t'] rest spec_resolve_refs.2.2 (by decide)
-    simpa using this
-  · split
-    · rename_i h; subst h
-      have := expandGo_ref lit "#10".toList ['\n'] rest spec_resolve_refs.2.1 (by decide)
-      simpa using this
-    · rename_i ht hn
-      exact expandGo_escChar lit c rest (fun hr => hlit hr hn ht)
-
-theorem normalizeEol_noCR (s : List Char) (h : '\r' ∉ s) : Umya.Spec.Xml.normalizeEol s = s := by
-  induction s with
-  | nil => rfl
-  | cons c r ih =>
-    have hc : c ≠ '\r' := by intro e; subst e; simp at h
-    have hr : '\r' ∉ r := by intro e; exact h (List.mem_cons_of_mem _ e)
-    unfold Umya.Spec.Xml.normalizeEol
-    split
-    · rename_i heq; injection heq with h1 _; exact absurd h1 hc
-    · rename_i heq; injection heq with h1 _; exact absurd h1 hc
-    · rename_i heq; injection heq with h1 h2; subst h1; subst h2; rw [ih hr]
-    · rename_i heq; simp at heq
-
-theorem attrEscape_noCR (s : List Char) : '\r' ∉ attrEscape s := fun h => (attrEscape_safe s _ h).2.2.2.2.1 rfl
-
-theorem escape_noCR (s : List Char) : '\r' ∉ escape s := by
-  intro hm
-  simp only [escape, List.mem_flatMap] at hm
-  obtain ⟨d, _, hin⟩ := hm
-  unfold escChar at hin
-  split at hin
-  · simp at hin
-  · rename_i hr
-    exact hr (escCharOld_ws d '\r' hin (Or.inl rfl)).symm
-
 /-- Character data: whatever text the writer puts into a text node, the independent reader reads
     back exactly that text — every text, carriage returns included (they are written as `&#13;`). -/
-theorem C02_text_channel (s : List Char) : Umya.Spec.Xml.textValue (escape s) = some s := by
-  unfold Umya.Spec.Xml.textValue
-  rw [normalizeEol_noCR _ (escape_noCR s)]
-  unfold escape
-  induction s with
-  | nil => rfl
-  | cons c r ih => rw [List.flatMap_cons, expandGo_escChar _ c _ (fun _ => rfl), ih]; rfl
+theorem C02_text_channel (s : List Char) : Umya.Spec.Xml.textValue (escape s) = some s := textValue_escape s
+
+/-- The same for the second text writer, `write_text_node_conversion` (quick-xml `partial_escape`, then
+    `\r` ↦ `&#13;`), which writes formula text and the `<v>` of `str` and number cells. -/
+theorem C02_text_channel_conversion (s : List Char) : Umya.Spec.Xml.textValue (partialEscape s) = some s :=
+  textValue_partialEscape s
 
 /-- Attribute values: read back exactly, for every text (tab, line feed and carriage return are
     written as character references, so attribute-value normalisation does not touch them). -/
-theorem C02_attr_channel (s : List Char) : Umya.Spec.Xml.attrValue (attrEscape s) = some s := by
-  unfold Umya.Spec.Xml.attrValue
-  rw [normalizeEol_noCR _ (attrEscape_noCR s)]
-  unfold attrEscape
-  induction s with
-  | nil => rfl
-  | cons c r ih =>
-    rw [List.flatMap_cons, expandGo_attrEscChar _ c _ (by intro h1 h2 h3; simp [h1, h2, h3]), ih]; rfl
+theorem C02_attr_channel (s : List Char) : Umya.Spec.Xml.attrValue (attrEscape s) = some s := attrValue_attrEscape s
 
 /-- the defect that was repaired: with quick-xml's plain `escape` a carriage return in a text node
     and a line feed in an attribute do not survive a conformant reader -/
@@ -247,11 +157,326 @@ theorem C02_unordered_pairing_fails :
     let b : Link := ⟨(2, 1), true, ['u', '2']⟩
     (a.coord, some 1) ∈ sheetWalk [a, b] 1 ∧ lookupRel 1 (relsWalk [b, a] 1) = some b.target := by decide
 
+/-! ### (4) cells: every written `<c>` and `<si>` decodes to the model cell
+
+  Writer side: `Umya.CellXml.writeTo` / `writeV` / `writeCells` / `writeSheets` / `writeBook`, `siOf`,
+  `writeText` (the model of `Cell::write_to`, `SharedStringItem::write_to`, `Text::write_to` and the cell
+  side of `make_buffer`; it is the model C01 ties to the code on every run).
+  Bridge: `Umya.CellNode.cellNode`, `siNode`, `sstParts`, `renderSheets` render the written facts as the
+  element trees an XML 1.0 reader delivers (text content through `textValue`, attributes through
+  `attrValue ∘ attrEscape`); every choice is documented in `Umya/Model/CellNode.lean`.
+  Reader side: `Umya.Spec.Sml.decodeCell`, `rstText`, `sharedStrings` — the independent decoder.
+
+  Kinds (`fileKind`): text and rich text → "s", number → "n", boolean → "b", error → "e", blank → "";
+  value text = `valueText` (`CellRawValue: Display`): the text, the concatenation of the run texts, the
+  number token, TRUE / FALSE, the error code.  Two documented deviations from the plain table `docKind`
+  (what `get_data_type` says) are part of `fileKind` and are shown to be real by the `_fails` theorems:
+  a formula without cached value reads as an empty string result, an unresolved lazy value as an empty
+  number (or an empty string under a formula).  NOT needed as hypotheses here, although C01 needs them:
+  rich text under a formula (written as `str` with the concatenated run texts — kind and value text still
+  agree) and rich text without runs (an `<si>` without `<t>`/`<r>` — the empty text).
+  No hypothesis on characters, numbers (`NumFmt.Sound` is not used), table state or sizes.
+-/
+
+section Cells
+open Umya.CellXml Umya.CellNode Umya.Num Umya.Coord
+open Umya.Spec.Sml (decodeCell rstText sharedStrings)
+
+/-- The shared-string table is prefix-preserving: whatever `Cell::write_to`, a sheet or all sheets register
+    is appended; an index handed out earlier keeps its item (`Extends`).  (Interning itself:
+    `Umya.InternC01.intern_spec`.) -/
+theorem C02_table_only_grows (F : NumFmt) :
+    (∀ tbl c tbl' ox, writeTo F tbl c = some (tbl', ox) → ∃ ext, tbl' = tbl ++ ext) ∧
+    (∀ tbl cs tbl' xs, writeCells F tbl cs = some (tbl', xs) → ∃ ext, tbl' = tbl ++ ext) ∧
+    (∀ tbl ss tbl' xss, writeSheets F tbl ss = some (tbl', xss) → ∃ ext, tbl' = tbl ++ ext) ∧
+    (∀ tbl ext : Table, Extends (tbl ++ ext) tbl) :=
+  ⟨fun tbl c tbl' ox h => (writeTo_grows F tbl c tbl' ox h).1,
+   fun tbl cs tbl' xs h => (writeCells_decodes F (fun _ => 0) cs tbl tbl' xs h).1,
+   fun tbl ss tbl' xss h => (writeSheets_decodes F (fun _ _ => 0) ss 0 tbl tbl' xss h).1,
+   fun _ _ _ _ hi => Umya.InternC01.getElem?_append_left' hi⟩
+
+/-- A shared-string item — plain text (any text: padded, empty, with `& < > " '`, CR, LF) or rich text
+    (any number of runs, with or without run properties) — as written by `SharedStringItem::write_to`
+    renders, and the independent reader's `rstText` of it is the item's text. -/
+theorem C02_si_decodes (it : Item) : ∃ n, siNode (siOf it) = some n ∧ rstText n = itemText it :=
+  ⟨_, siNode_siOf it, rstText_siN it⟩
+
+/-- The shared-string part of any table state, as the independent reader sees it in the package: one text
+    per item, in table order (no part and an empty table when nothing was registered). -/
+theorem C02_sst_decodes (tbl : Table) :
+    ∃ pkg, sstParts (tbl.map siOf) = some pkg ∧ sharedStrings pkg sstPath = tbl.map itemText :=
+  sharedStrings_written tbl
+
+/-- ONE CELL, every branch of `write_to` (`<c r s/>`, `t="s"` through the shared table, `t="str"`, `t="b"`,
+    `t="e"`, numbers without `t`, `<v/>`, with and without `<f>`): if the cell is written at all, its `<c>`
+    renders, and for EVERY later table state `tbl''` that extends the writer's — whatever other cells of
+    this or later sheets register — the independent decoder, given the shared strings it reads from the
+    part written for `tbl''`, returns exactly the cell's reference, kind, value text, formula text and
+    style index, and reports no violation. -/
+theorem C02_cell_decodes (F : NumFmt) (tbl : Table) (c : Cell F.Num) (tbl' : Table) (cx : CellX)
+    (h : writeTo F tbl c = some (tbl', some cx)) (xf : Nat) :
+    1 ≤ c.col ∧
+    ∃ node, cellNode xf cx = some node ∧
+      ∀ tbl'' : Table, Extends tbl'' tbl' →
+        ∃ pkg, sstParts (tbl''.map siOf) = some pkg ∧
+          decodeCell (sharedStrings pkg sstPath) node = (fileView F xf c, []) := by
+  obtain ⟨hc, _, _, node, hn, hd⟩ := writeTo_decodes F tbl c tbl' cx h xf
+  refine ⟨hc, node, hn, fun tbl'' hx => ?_⟩
+  obtain ⟨pkg, hp, hs⟩ := sharedStrings_written tbl''
+  exact ⟨pkg, hp, by rw [hs]; exact hd tbl'' hx⟩
+
+/-- The rendering of text content is what the lexer does: the raw character data between two tags (XML
+    `Char`s, no `<`) followed by the next tag reaches the tree builder as ONE text token that carries
+    `textValue raw`, or as no token when it is empty (or the document is rejected when `textValue` fails) —
+    exactly `CellNode.charData`. -/
+theorem C02_chardata_lexed (raw rest : List Char) (hx : ∀ c ∈ raw, Umya.Spec.Xml.isXmlChar c = true) (hlt : '<' ∉ raw) :
+    Umya.Spec.Xml.lexGo (.text []) (raw ++ '<' :: rest) =
+      if raw = [] then Umya.Spec.Xml.lexGo .lt rest
+      else match Umya.Spec.Xml.textValue raw, Umya.Spec.Xml.lexGo .lt rest with
+        | some t, some ts => some (Umya.Spec.Xml.Token.text t :: ts)
+        | _, _ => none := by
+  rw [lexGo_text_run raw hx hlt [] rest]
+  unfold Umya.Spec.Xml.flushText
+  by_cases h : raw = []
+  · subst h; simp
+  · simp [h]
+    cases Umya.Spec.Xml.textValue raw <;> cases Umya.Spec.Xml.lexGo .lt rest <;> rfl
+
+/-- The reference the decoder returns is the cell's own position under the decoder's A1 reading
+    (`Spec/Sml.lean::colOf`, `rowOf`, which the well-formedness check of the sheet uses): column and row of
+    the model cell, for every column ≥ 1 and every row. -/
+theorem C02_cell_position (F : NumFmt) (tbl : Table) (c : Cell F.Num) (tbl' : Table) (cx : CellX)
+    (h : writeTo F tbl c = some (tbl', some cx)) (xf : Nat) :
+    Umya.Spec.Sml.colOf (fileView F xf c).ref = c.col ∧ Umya.Spec.Sml.rowOf (fileView F xf c).ref = c.row :=
+  ref_position c.col c.row (C02_cell_decodes F tbl c tbl' cx h xf).1
+
+/-- the hypothesis of `C02_cell_decodes` holds for every cell that has a column ≥ 1 and is not
+    blank-and-unstyled (those are not written: `C01_normalize`) -/
+theorem C02_cell_written (F : NumFmt) (tbl : Table) (c : Cell F.Num) (hc : 1 ≤ c.col) (hb : blankUnstyled F c = false) :
+    ∃ tbl' cx, writeTo F tbl c = some (tbl', some cx) := by
+  obtain ⟨tbl', ox, hw, hx⟩ := writeTo_total F tbl c hc
+  obtain ⟨cx, rfl⟩ := hx hb
+  exact ⟨tbl', cx, hw⟩
+
+/- Full statement with the PLAIN kind table (`docKind` = `CellRawValue::get_data_type`):
+     writeTo F tbl c = some (tbl', some cx) → … (decodeCell … node).1.kind = docKind F c.raw
+   It is false for a formula without cached value and for an unresolved lazy value (next two theorems);
+   it holds for every other cell: -/
+theorem C02_cell_kind_partial (F : NumFmt) (xf : Nat) (c : Cell F.Num) (hk : plainKind F c = true) :
+    (fileView F xf c).kind = docKind F c.raw := by
+  obtain ⟨col, row, raw, fo, styled⟩ := c
+  cases raw <;> simp [plainKind] at hk <;> simp [fileView, fileKind, docKind, hk]
+
+/-- `C02_cell_decodes` with the plain kind table spelled out — the statement of the property for one cell:
+    the decoded cell has exactly the cell's reference, its kind by the table text / rich text → "s",
+    number → "n", boolean → "b", error → "e", blank → "", its value text, its formula text and its style.
+    `plainKind` (decidable) excludes exactly a formula without cached value and an unresolved lazy value;
+    both exclusions are necessary (`C02_cell_uncached_formula_fails`, `C02_cell_lazy_fails`). -/
+theorem C02_cell_decodes_plain_partial (F : NumFmt) (tbl : Table) (c : Cell F.Num) (tbl' : Table) (cx : CellX)
+    (h : writeTo F tbl c = some (tbl', some cx)) (xf : Nat) (hk : plainKind F c = true) :
+    ∃ node, cellNode xf cx = some node ∧
+      ∀ tbl'' : Table, Extends tbl'' tbl' →
+        ∃ pkg, sstParts (tbl''.map siOf) = some pkg ∧
+          decodeCell (sharedStrings pkg sstPath) node =
+            ({ ref := coordinateFromIndexWithLock c.col c.row false false, kind := docKind F c.raw,
+               value := valueText F c.raw, formula := c.formula, style := if c.styled then xf else 0 }, []) := by
+  obtain ⟨_, node, hn, hd⟩ := C02_cell_decodes F tbl c tbl' cx h xf
+  refine ⟨node, hn, fun tbl'' hx => ?_⟩
+  obtain ⟨pkg, hp, hdec⟩ := hd tbl'' hx
+  refine ⟨pkg, hp, ?_⟩
+  rw [hdec, ← C02_cell_kind_partial F xf c hk]
+  rfl
+
+/-- A formula without cached value (`set_formula` on a blank cell) is written `t="str"` with `<v/>`: an
+    independent reader sees a formula whose cached result is the EMPTY STRING, not "no value".  (The check's
+    view function identifies the two, see `C02_cell_kind_normalised`.) -/
+theorem C02_cell_uncached_formula_fails (F : NumFmt) :
+    ∃ (c : Cell F.Num) (tbl' : Table) (cx : CellX) (node : Umya.Spec.Xml.Node),
+      writeTo F [] c = some (tbl', some cx) ∧ cellNode 0 cx = some node ∧ docKind F c.raw = "" ∧
+      ∀ tbl'' : Table, Extends tbl'' tbl' →
+        (decodeCell (tbl''.map itemText) node).1.kind = "s" ∧ (decodeCell (tbl''.map itemText) node).1.value = [] := by
+  obtain ⟨tbl', cx, hw⟩ := C02_cell_written F [] { col := 1, row := 1, formula := some ['A', '2'] } (Nat.le_refl 1) rfl
+  obtain ⟨_, _, _, node, hn, hd⟩ := writeTo_decodes F [] _ tbl' cx hw 0
+  refine ⟨_, tbl', cx, node, hw, hn, rfl, fun tbl'' hx => ?_⟩
+  rw [hd tbl'' hx]
+  exact ⟨rfl, rfl⟩
+
+/-- A value stored with `set_value_lazy` and never resolved (C01's known finding `C01_lazy_fails`) is written
+    as an empty `<v></v>` without `t`: an independent reader sees a NUMBER cell with empty content, whatever
+    the stored text was; the workbook says kind "" (no value). -/
+theorem C02_cell_lazy_fails (F : NumFmt) :
+    ∃ (c : Cell F.Num) (tbl' : Table) (cx : CellX) (node : Umya.Spec.Xml.Node),
+      writeTo F [] c = some (tbl', some cx) ∧ cellNode 0 cx = some node ∧ docKind F c.raw = "" ∧
+      ∀ tbl'' : Table, Extends tbl'' tbl' →
+        (decodeCell (tbl''.map itemText) node).1.kind = "n" ∧ (decodeCell (tbl''.map itemText) node).1.value = [] := by
+  obtain ⟨tbl', cx, hw⟩ := C02_cell_written F [] { col := 1, row := 1, raw := .lazy ['4', '2'] } (Nat.le_refl 1) rfl
+  obtain ⟨_, _, _, node, hn, hd⟩ := writeTo_decodes F [] _ tbl' cx hw 0
+  refine ⟨_, tbl', cx, node, hw, hn, rfl, fun tbl'' hx => ?_⟩
+  rw [hd tbl'' hx]
+  exact ⟨rfl, rfl⟩
+
+/-- The rule by which the check's view (`Driver/C02.lean::cellStr`, which calls this function) compares
+    kinds: a formula cell whose cached string result is empty is the same as one without a cached result.
+    Under it the decoded kind of EVERY cell except an unresolved lazy value is the workbook's own kind
+    (`get_data_type`), the uncached formula included. -/
+theorem C02_cell_kind_normalised (F : NumFmt) (xf : Nat) (c : Cell F.Num) (hl : ∀ s, c.raw ≠ .lazy s) :
+    normKind (fileView F xf c).formula (fileView F xf c).kind (fileView F xf c).value
+      = normKind c.formula (docKind F c.raw) (valueText F c.raw) := by
+  obtain ⟨col, row, raw, fo, styled⟩ := c
+  cases raw with
+  | lazy s => exact absurd rfl (hl s)
+  | empty => cases fo <;> simp [normKind, fileView, fileKind, docKind, valueText]
+  | _ => rfl
+
+/-- ONE SHEET: the `<c>` elements written for a list of cells (in the order of the row loop,
+    `C02_sheetdata_ascending`) render, and the independent decoder — given the shared strings of any table
+    state that extends the one reached after the sheet — returns, element by element and in order, the views
+    of exactly the cells that are not blank-and-unstyled. -/
+theorem C02_sheet_cells_decode (F : NumFmt) (xf : List Char → Nat) (tbl : Table) (cs : List (Cell F.Num))
+    (tbl' : Table) (xs : List CellX) (h : writeCells F tbl cs = some (tbl', xs)) :
+    ∃ nodes, renderCells xf xs = some nodes ∧
+      ∀ tbl'' : Table, Extends tbl'' tbl' →
+        ∃ pkg, sstParts (tbl''.map siOf) = some pkg ∧
+          nodes.map (decodeCell (sharedStrings pkg sstPath))
+            = viewCells F xf (cs.filter (fun c => !blankUnstyled F c)) := by
+  obtain ⟨_, nodes, hn, hd⟩ := writeCells_decodes F xf cs tbl tbl' xs h
+  refine ⟨nodes, hn, fun tbl'' hx => ?_⟩
+  obtain ⟨pkg, hp, hs⟩ := sharedStrings_written tbl''
+  exact ⟨pkg, hp, by rw [hs]; exact hd tbl'' hx⟩
+
+/-- THE WHOLE PACKAGE (cell side), both writers: if `make_buffer` does not panic, the shared-string part
+    renders (or is absent because no string was registered), the cells of every sheet render, and every
+    `<c>` of every sheet decodes — against the table the independent reader takes from the FINAL
+    shared-string part — to the view of its model cell: sheet by sheet, cell by cell, in order, exactly the
+    cells `normalize` keeps (all but the blank unstyled ones), no violation reported.  Any number of sheets
+    and cells, any texts, any mixture of kinds; `xf k ref` is the style index of the cell at `ref` in sheet `k`. -/
+theorem C02_book_cells_decode (F : NumFmt) (light : Bool) (sheets : List (List (Cell F.Num))) (b : BookX)
+    (h : writeBook F light sheets = some b) (xf : Nat → List Char → Nat) :
+    ∃ pkg nodess, sstParts b.sst = some pkg ∧ renderSheets xf 0 b.sheets = some nodess ∧
+      nodess.map (fun ns => ns.map (decodeCell (sharedStrings pkg sstPath)))
+        = viewSheets F xf 0 (normalize F sheets) :=
+  writeBook_decodes F light sheets b h xf
+
+/-- … read cell by cell: the `j`-th `<c>` of the `i`-th sheet decodes to the view of the `j`-th kept cell of
+    the `i`-th sheet of the workbook. -/
+theorem C02_book_cell_decodes (F : NumFmt) (light : Bool) (sheets : List (List (Cell F.Num))) (b : BookX)
+    (h : writeBook F light sheets = some b) (xf : Nat → List Char → Nat) :
+    ∃ pkg nodess, sstParts b.sst = some pkg ∧ renderSheets xf 0 b.sheets = some nodess ∧
+      ∀ (i j : Nat) (ns : List Umya.Spec.Xml.Node) (node : Umya.Spec.Xml.Node),
+        nodess[i]? = some ns → ns[j]? = some node →
+        ∃ cs c, (normalize F sheets)[i]? = some cs ∧ cs[j]? = some c ∧
+          decodeCell (sharedStrings pkg sstPath) node
+            = (fileView F (xf i (coordinateFromIndexWithLock c.col c.row false false)) c, []) := by
+  obtain ⟨pkg, nodess, hp, hn, hd⟩ := writeBook_decodes F light sheets b h xf
+  refine ⟨pkg, nodess, hp, hn, ?_⟩
+  intro i j ns node hi hj
+  have h1 := congrArg (fun l => l[i]?) hd
+  simp only [List.getElem?_map, hi, Option.map_some, viewSheets_get, Nat.zero_add] at h1
+  cases hcs : (normalize F sheets)[i]? with
+  | none => rw [hcs] at h1; simp at h1
+  | some cs =>
+    rw [hcs] at h1
+    simp only [Option.map_some, Option.some.injEq] at h1
+    have h2 := congrArg (fun l => l[j]?) h1
+    simp only [List.getElem?_map, hj, Option.map_some, viewCells] at h2
+    cases hc : cs[j]? with
+    | none => rw [hc] at h2; simp at h2
+    | some c =>
+      rw [hc] at h2
+      simp only [Option.map_some, Option.some.injEq] at h2
+      exact ⟨cs, c, rfl, hc, h2⟩
+
+/-- the writers do not panic on cells with a column ≥ 1 (the hypothesis of the two theorems above) -/
+theorem C02_book_written (F : NumFmt) (light : Bool) (sheets : List (List (Cell F.Num)))
+    (hc : ∀ s ∈ sheets, ∀ c ∈ s, 1 ≤ c.col) : ∃ b, writeBook F light sheets = some b :=
+  writeBook_total F light sheets hc
+
+/-! #### non-vacuity of (4) -/
+
+/-- the driver's number format: a number token is Rust's shortest decimal text -/
+def demoF : NumFmt := textFmt []
+
+/-- two sheets with every kind, special characters, a repeated string (one `<si>`, two cells), a blank
+    unstyled cell (not written), a styled blank cell (`<c r s/>`), formulas with every kind of cached value,
+    a formula without cached value, rich text under a formula and rich text without runs -/
+def demoBook : List (List (Cell demoF.Num)) :=
+  [[{ col := 1, row := 1, raw := .str [' ', '&', '<', '\r', '\n', '"', ' '] },
+    { col := 16384, row := 1, raw := .num ['4', '2', '.', '5'], formula := some [' ', 'A', '1', '<', 'B', '1', ' '] },
+    { col := 2, row := 2 },
+    { col := 3, row := 2, styled := true },
+    { col := 1, row := 1048576, raw := .err .na }],
+   [{ col := 1, row := 1, raw := .rich [{ text := [' ', 'a'], font := some 1 }, { text := ['b', '\r'] }] },
+    { col := 2, row := 1, raw := .bool true, formula := some [] },
+    { col := 3, row := 1, raw := .str [' ', '&', '<', '\r', '\n', '"', ' '], styled := true },
+    { col := 4, row := 1, formula := some ['A', '1'] },
+    { col := 5, row := 1, raw := .rich [{ text := ['x'] }, { text := ['y'], font := some 2 }], formula := some ['B', '1'] },
+    { col := 6, row := 1, raw := .rich [] },
+    { col := 7, row := 1, raw := .bool false }]]
+
+/-- `C02_book_written`, `C02_book_cells_decode`, `C02_book_cell_decodes`: the hypotheses are satisfiable -/
+example : ∀ s ∈ demoBook, ∀ c ∈ s, 1 ≤ c.col := by decide
+
+example : ∃ b, writeBook demoF true demoBook = some b ∧
+    ∃ pkg nodess, sstParts b.sst = some pkg ∧ renderSheets (fun _ _ => 3) 0 b.sheets = some nodess ∧
+      nodess.map (fun ns => ns.map (decodeCell (sharedStrings pkg sstPath)))
+        = viewSheets demoF (fun _ _ => 3) 0 (normalize demoF demoBook) := by
+  obtain ⟨b, hb⟩ := C02_book_written demoF true demoBook (by decide)
+  exact ⟨b, hb, C02_book_cells_decode demoF true demoBook b hb _⟩
+
+/-- … and what the decoder must find there is not trivial: the kinds, the value texts and the styles of
+    the kept cells (4 of 5 and 7 of 7) -/
+example : (viewSheets demoF (fun _ _ => 3) 0 (normalize demoF demoBook)).map (fun l => l.map (fun p => (p.1.kind, String.ofList p.1.value, p.1.style)))
+    = [[("s", " &<\r\n\" ", 0), ("n", "42.5", 0), ("", "", 3), ("e", "#N/A", 0)],
+       [("s", " ab\r", 0), ("b", "TRUE", 0), ("s", " &<\r\n\" ", 3), ("s", "", 0), ("s", "xy", 0), ("s", "", 0), ("b", "FALSE", 0)]] := by
+  decide
+
+/-- `C02_cell_decodes`, `C02_cell_written`: a padded text cell under a formula at XFD1048576, against a
+    table that already holds items -/
+example : ∃ tbl' cx, writeTo demoF [{ text := some ['q'] }]
+    { col := 16384, row := 1048576, raw := .str [' ', 'x', ' '], formula := some ['A', '1', ' '] } = some (tbl', some cx) :=
+  C02_cell_written demoF _ _ (by decide) (by decide)
+
+/-- `C02_chardata_lexed`: escaped text is such character data -/
+example : (∀ c ∈ Umya.Xml.escape ['a', '<', '\r', ' '], Umya.Spec.Xml.isXmlChar c = true) ∧ '<' ∉ Umya.Xml.escape ['a', '<', '\r', ' '] := by
+  decide
+
+/-- `C02_cell_kind_partial`, `C02_cell_decodes_plain_partial`, `C02_cell_kind_normalised` -/
+example : plainKind demoF { col := 1, row := 1, raw := .rich [], formula := some ['A', '1'] } = true ∧
+    (∀ s, ({ col := 4, row := 1, formula := some ['A', '1'] } : Cell demoF.Num).raw ≠ .lazy s) := by
+  refine ⟨by decide, fun s h => by cases h⟩
+
+/-- `C02_si_decodes`, `C02_sst_decodes`: a table with a padded text, an empty text and a rich text -/
+example : ([{ text := some [' ', 'a', '&'] }, { text := some [] }, { rich := some [{ text := ['x'] }, { text := ['y', ' '], font := some 1 }] }] : Table).map itemText
+    = [[' ', 'a', '&'], [], ['x', 'y', ' ']] := by decide
+
+/-- the rendering itself, on a concrete cell and item (what the decoder is handed) -/
+example : cellNode 5 { ref := ['B', '2'], t := ['s'], styled := true, f := some ['A', '1', '&', 'l', 't', ';', '2'], v := .text ['0'] }
+    = some (.elem ['c'] [⟨['r'], ['B', '2']⟩, ⟨['t'], ['s']⟩, ⟨['s'], ['5']⟩]
+        [.elem ['f'] [] [.text ['A', '1', '<', '2']], .elem ['v'] [] [.text ['0']]]) := by
+  have h5 : Umya.Dec.decDigits 5 = ['5'] := by rw [Umya.Dec.decDigits]; rfl
+  simp only [cellNode, cellAttrs, attrOf_eq, h5]
+  rfl
+
+example : siNode (siOf { text := some [' ', 'a', '&'] })
+    = some (.elem ['s', 'i'] [] [.elem ['t'] [⟨['x', 'm', 'l', ':', 's', 'p', 'a', 'c', 'e'], ['p', 'r', 'e', 's', 'e', 'r', 'v', 'e']⟩] [.text [' ', 'a', '&']], phoneticPr]) := by
+  rw [siNode_siOf]; rfl
+
+end Cells
+
 /-! ### non-vacuity -/
 
 example : Umya.Spec.Xml.textValue (escape ['a', '&', '\r', '<', '"', '\n', 'b']) = some ['a', '&', '\r', '<', '"', '\n', 'b'] ∧
     Umya.Spec.Xml.attrValue (attrEscape ['a', '\t', '\r', '\n', '"']) = some ['a', '\t', '\r', '\n', '"'] := by decide
 
 example : sheetWalk [⟨(1, 1), true, ['x']⟩, ⟨(1, 2), false, ['y']⟩, ⟨(1, 3), true, ['z']⟩] 1 = [((1, 1), some 1), ((1, 2), none), ((1, 3), some 2)] := by decide
+
+/-- **Tie to the source (T).**  The escape pipelines of writer/driver.rs as regenerated on this run are the
+    model's channel functions: `write_start_tag` ↦ `attrEscape`, `write_text_node` ↦ `escape`,
+    `write_text_node_conversion` ↦ `partialEscape` (base quick-xml function and every `.replace` step, in order). -/
+theorem C02_channels_match_source (s : List Char) :
+    Umya.Gen.write_start_tag_escape.run escapeOld partialEscapeOld s = attrEscape s ∧
+    Umya.Gen.write_text_node_escape.run escapeOld partialEscapeOld s = escape s ∧
+    Umya.Gen.write_text_node_conversion_escape.run escapeOld partialEscapeOld s = partialEscape s :=
+  ⟨Umya.Gen.gen_write_start_tag s, Umya.Gen.gen_write_text_node s, Umya.Gen.gen_write_text_node_conversion s⟩
 
 end Umya.Thm.C02
